@@ -213,11 +213,11 @@ def init_cli_parser(parent_parser):
 def generate(args):
 
     # Some extra checks on cli parameters!
-    if args.row_count <= 2:
-        raise ValueError("--row_count: The size must be > 2")
+    if args.row_count < 2:
+        raise ValueError("--row_count: The size must be >= 2")
     if args.col_count:
-        if args.col_count <= 2:
-            raise ValueError("--col_count: The size must be > 2")
+        if args.col_count < 2:
+            raise ValueError("--col_count: The size must be >= 2")
         col_count = args.col_count
     else:
         col_count = args.row_count
@@ -267,7 +267,7 @@ def generate(args):
             dist_result["distribution"] = fg_mapping
             print(yaml.dump(dist_result))
         if args.var_dist:
-            dist_result["distribution"] = fg_mapping
+            dist_result["distribution"] = var_mapping
             print(yaml.dump(dist_result))
 
 
@@ -298,6 +298,7 @@ def generate_ising(
     agents = {}
     fg_mapping = defaultdict(lambda: [])
     var_mapping = defaultdict(lambda: [])
+    hosted_constraints = set()
     for (row, col) in grid_graph.nodes:
         agent = AgentDef(f"a_{row}_{col}")
         agents[agent.name] = agent
@@ -312,10 +313,14 @@ def generate_ising(
             fg_mapping[agent.name].append(f"cu_v_{row}_{col}")
             # Sort coordinate to make sure we build the name in the same order as when
             # creating the constraints:
-            (r1, c1), (r2, c2) = sorted([(row, col), (left, col)])
-            fg_mapping[agent.name].append(f"cb_v_{r1}_{c1}_v_{r2}_{c2}")
-            (r1, c1), (r2, c2) = sorted([(row, col), (row, down)])
-            fg_mapping[agent.name].append(f"cb_v_{r1}_{c1}_v_{r2}_{c2}")
+            # With only 2 rows (or columns) the grid wraps onto the same edge from
+            # both ends: make sure each binary constraint is hosted only once.
+            for neighbor in [(left, col), (row, down)]:
+                (r1, c1), (r2, c2) = sorted([(row, col), neighbor])
+                cb_name = f"cb_v_{r1}_{c1}_v_{r2}_{c2}"
+                if cb_name not in hosted_constraints:
+                    hosted_constraints.add(cb_name)
+                    fg_mapping[agent.name].append(cb_name)
 
     name = f"Ising_{row_count}_{col_count}_{bin_range}_{un_range}"
     if no_agents:
